@@ -422,7 +422,7 @@ def parser_checks(run, tb, tmp):
                             tag.upper(), text, rf.kind, rf.detail, ro.kind, ro.detail), dict(variant=variant, conf=["%s = %s" % (tag.upper(), text)], argv=argv))
 
     # ------------------------------------------------------------------ combinations
-    ncombo = 400 if thorough else 90
+    ncombo = 2000 if thorough else 90
     unknown = ["FOO", "MESHH", "T_MAX"]
     for c in range(ncombo):
         variant = rng.choice(["phonopy", "load"])
@@ -550,7 +550,7 @@ def parser_checks(run, tb, tmp):
                     check_set(variant, [(writer, xw, fw[0] if fw else None), (reader, xr, fr[0] if fr else None)], True)
 
     # (b) random sets of non-interfering settings
-    nsets = 300 if thorough else 60
+    nsets = 1000 if thorough else 60
     made = 0
     attempts = 0
     while made < nsets and attempts < 20 * nsets:
@@ -579,7 +579,7 @@ def parser_checks(run, tb, tmp):
             withopt = [x for x in vals if _option_forms(tab, variant, tag, x)]
             if not withopt or len(vals) < 2:
                 continue
-            for _ in range(3 if thorough else 1):
+            for _ in range(5 if thorough else 1):
                 v2 = rng.choice(withopt)
                 v1 = rng.choice([x for x in vals if x != v2])
                 argv = _option_forms(tab, variant, tag, v2)[0]
@@ -687,6 +687,9 @@ def main(run):
 
         # the route oracle that needs neither the generated table nor the Lean side runs first
         _stage(run, "documented route oracle", documented_route_oracle, run, tmp)
+        from . import c18_keys as K
+
+        _stage(run, "per-key value parsers vs model", K.key_checks, run, tmp)
         if tb is not None:
             res = _stage(run, "settings parser vs model", parser_checks, run, tb, tmp)
             if res is not None:
@@ -694,13 +697,15 @@ def main(run):
         _stage(run, "fc-calculator rule", W.fc_calculator_checks, run)
         crystals = [("nacl_prim", (2, 2, 2)), ("cscl", (2, 2, 1))]
         if thorough:
-            crystals += [("hcp", (2, 2, 1)), ("zincblende_prim", (2, 2, 2)), ("bcc", (2, 2, 2))]
+            crystals += [("hcp", (2, 2, 1)), ("zincblende_prim", (2, 2, 2)), ("bcc", (2, 2, 2)), ("mono_P", (2, 1, 1)), ("cscl", (2, 2, 2)), ("rhombo", (2, 2, 1))]
         flows = []
         for name, dim in crystals:
             fl = W.Flow(run, name + "-" + "x".join(map(str, dim)), dim, tmp)
-            fl.cell, _ = __import__("harness.gen", fromlist=["make_cell"]).make_cell(name)
+            fl.cell, fl.cen = __import__("harness.gen", fromlist=["make_cell"]).make_cell(name)
             flows.append(fl)
             _stage(run, "workflow " + fl.name, fl.go, run.rng, thorough)
+            os.chdir(tmp)
+            _stage(run, "further modes " + fl.name, fl.go_extra, run.rng, thorough, thorough or len(flows) == 1)
             os.chdir(tmp)
         _stage(run, "calculator named by the yaml only", W.calculator_flows, run, tmp, run.rng, thorough)
         os.chdir(tmp)
